@@ -170,7 +170,7 @@ func runCheck(prop, tier string, overlay map[string][]byte, quiet bool) (int, *C
 			obls = append(obls, enc.obls...)
 		}
 		for _, lm := range cf.Lemmas {
-			if !hasProp(lm.Props, prop) {
+			if !hasProp(lm.Props, prop) || lm.Axiom {
 				continue
 			}
 			o, err := eng.lemmaObligation(lp, lm)
